@@ -39,7 +39,26 @@ def mkval(kind):
 def path_unit(c, job):
     import magicbot.inject as inj
 
-    ann_t = {"Dep": Dep, "int": int, "str": str, "list[int]": list[int]}[job["ann"]]
+    import typing
+
+    ann_t = {"Dep": Dep, "int": int, "str": str, "list[int]": list[int], "Optional[Dep]": typing.Optional[Dep],
+             "Union[int,float]": typing.Union[int, float], "ClassVar[int]": typing.ClassVar[int]}[job["ann"]]
+    if job["ann"] in ("Optional[Dep]", "Union[int,float]", "ClassVar[int]"):
+        # only the "already has a value -> untouched" clause is stated for annotations that are not classes
+        class Comp0:
+            pass
+
+        comp0 = Comp0()
+        marker0 = object()
+        setattr(comp0, "dep", marker0)
+        try:
+            req = inj.get_injection_requests({"dep": ann_t, "_p": ann_t}, "c1", comp0)
+            ok = req == {} and comp0.dep is marker0
+        except Exception as e:
+            ok = False
+        c.reach("preset-non-class-annotation")
+        c.prove("C08.unit private-or-preset-untouched", ok, info=dict(ann=job["ann"]))
+        return
     check_t = list if job["ann"] == "list[int]" else ann_t
     private = job["private"]
     n = "_dep" if private else "dep"
@@ -368,6 +387,7 @@ class C08(Spec):
 
     def jobs(self, tier):
         j = [dict(kind="unit", ann=a, private=p) for a in ("Dep", "int", "str", "list[int]") for p in (False, True)]
+        j += [dict(kind="unit", ann=a, private=False) for a in ("Optional[Dep]", "Union[int,float]", "ClassVar[int]")]
         j += [dict(kind="ctor"), dict(kind="robot"), dict(kind="twins")]
         return j
 
@@ -377,7 +397,7 @@ class C08(Spec):
 
     def reach_required(self, tier):
         return ["untouched", "prefixed-lookup", "absent", "mistyped", "delivered", "falsy-delivered", "ctor-private", "startup-fails", "startup-ok",
-                "inherited-annotations", "ctor-injection", "twins", "inherited-robot"]
+                "inherited-annotations", "ctor-injection", "twins", "inherited-robot", "preset-non-class-annotation"]
 
     def path_fn(self, c, job):
         return dict(unit=path_unit, ctor=path_ctor, robot=path_robot, twins=path_twins)[job["kind"]](c, job)
